@@ -123,6 +123,25 @@ func TestC09(t *testing.T) {
 			p := g.Ethernet(g.Int("maxlen", 64, 1800))
 			addLabels(c, g.Labels)
 			c.Label("kind=Ethernet/" + p.L3 + "/" + p.L4)
+			if _, isARP := p.Eth.Data.(*protocol.ARP); isARP && rapid.IntRange(0, 2).Draw(rt, "reverse_arp") == 0 {
+				// a reverse-ARP frame (RFC 903): same packet layout as ARP, ethertype 0x8035. The ethertype is the
+				// caller's field; the payload's Go type does not decide it. This library decodes 0x8035 frames to an
+				// opaque payload, so only the encoding direction is judged for this value.
+				p.Eth.Ethertype = 0x8035
+				w := append([]byte{}, p.Wire...)
+				at := 12
+				if p.Eth.VLANID.VID != 0 {
+					at = 16
+				}
+				w[at], w[at+1] = 0x80, 0x35
+				c.Label("reverse_arp_ethertype_with_arp_payload")
+				l0, lf := safeLen(p.Eth)
+				b, fr, msg := safeMarshal(p.Eth)
+				if fr != "" || lf != "" || l0 != len(b) || !bytes.Equal(b, w) {
+					c.Report(rt, "C09|Ethernet|encode-layout", fmt.Sprintf("reverse-ARP frame (ethertype 0x8035 with an ARP payload): Len %d (panic %q), encoding %s %s %s, RFC layout %s", l0, lf, fr, msg, hx(b), hx(w)), map[string]any{"wire": hx(w)})
+				}
+				return
+			}
 			if headerCycle(c, rt, "Ethernet", p.Eth, p.Wire, p.Desc) {
 				if p.Eth.VLANID.VID != 0 || p.L3 != "other" {
 					c.NonTrivial(ev.Hash64(p.Wire))
